@@ -482,4 +482,16 @@ theorem valid_inv {good : Nat → Bool} {k : Nat} : ∀ (es : List Ev) (A : List
     have := ih _ _ h1 h2 hv.2
     simpa [run, announced, List.append_assoc] using this
 
+/-- at the end of a fair complete run the fetcher has stopped and `Inv` holds -/
+theorem fair_finished {good : Nat → Bool} {k : Nat} {es : List Ev} (hfair : Fair good k es) :
+    Inv good k (announced es) (run (init k) es) ∧ (run (init k) es).running = false := by
+  obtain ⟨hs, hi⟩ := valid_inv es [] (init k) (struct_init k) (inv_init good k) hfair.1
+  simp only [List.nil_append] at hi
+  refine ⟨hi, ?_⟩
+  rcases hfair.2 with h | ⟨h1, h2, h3⟩
+  · exact h
+  · cases hr : (run (init k) es).running with
+    | false => rfl
+    | true => exact absurd h3 (hs.quiet hr h1 h2)
+
 end Tahoe.Fetch
